@@ -148,7 +148,7 @@ pub fn check_lookup(c: &Lookup) -> CheckResult {
 pub fn run(ctx: &Ctx) {
     set_rule("C05", "key quadruples (S, S', R, R', attacker) derived from a generated seed x a labelled construction class: real encryptor with mismatched sender_public; honest file presented to another key / wrong public half / wrong private half; handshakes forged with the independent specification (claimed static key != key used for ss, es from another ephemeral, low-order static key); each handshake field or the chunk area taken from a second authentic file to the same recipient; each of the 14 spellings of the zero-forcing u-coordinates as recipient of key_encrypt and as ephemeral field; positive controls from the real encryptor; and keyrings with look-alike public keys (other letter case, one character changed) queried with the sender's encoding through the lookup the CLI uses. Expected outcome is fixed by construction. Non-trivial = every case outside the positive controls; distinct by hash of the case");
     ctx.assume("only points whose every clamped multiple is zero are used as low-order inputs; full-order non-canonical encodings belong to C19");
-    ctx.pbt("constructed_forgeries", ctx.n(40_000, 600_000), strat, check);
+    ctx.pbt("constructed_forgeries", ctx.n(120_000, 1_200_000), strat, check);
     // every low-order spelling, deterministically
     let n = gen::low_order_points().len();
     let cases: Vec<Case> = (0..n).flat_map(|idx| [Class::LowOrderRecipient { idx }, Class::LowOrderEphemeral { idx }, Class::LowOrderStatic { idx }]).map(|class| Case { class, plain: Plain { len: 20, seed: 5 }, keys: ctx.seed, lens: vec![7], ws: WSched::all() }).collect();
